@@ -521,6 +521,11 @@ def _warnings_part(ctx, workroot, tier):
         ("code", "x\n<%\n    a = 1\n    b = 'q\\dz'\n%>\n${b}", 4, "invalid escape sequence"),
         ("module", "x\ny\n<%!\n    import warnings\n    warnings.warn('module level')\n%>\nz", 5, "module level"),
         ("control", "a\n% if 'k\\dz':\nyes\n% endif\n", 2, "invalid escape sequence"),
+        ("call-expr", "x\n<%def name=\"w(v)\">${v}</%def><%call expr=\"w('q\\dz')\"></%call>\n", 2, "invalid escape sequence"),
+        # positions whose Python is re-emitted from its parsed form (the literal comes out with a valid escape)
+        ("reemitted-filter-arg", "x\n${'a' | str, wf('q\\dz')}\n", 2, "invalid escape sequence"),
+        ("reemitted-def-arg", "x\n<%def name=\"f(v='q\\dz')\">${v}</%def>${f()}\n", 2, "invalid escape sequence"),
+        ("reemitted-page-arg", "<%page args=\"v='q\\dz'\"/>${v}\n", 1, "invalid escape sequence"),
     ]
     d = os.path.join(workroot, "w")
     os.makedirs(d)
@@ -589,7 +594,7 @@ def _warnings_part(ctx, workroot, tier):
                         else:
                             t = TemplateLookup(directories=[d], module_directory=os.path.join(d, "m_%s" % action)).get_template(os.path.basename(fn))
                             want_fn = fn
-                        t.render()
+                        t.render(wf=lambda a_: (lambda s_: s_))
                     except Exception as ex:  # noqa
                         shown.append(("raised " + repr(ex)[:100], None, None))
                     finally:
